@@ -212,7 +212,7 @@ inductive EncAs (w : World) (cfg : Cfg) : Ty → Obj → Obj → Prop
       EncAs w cfg (.cls c) (.inst c' fs) (.coll .tuple out)
   /-- TypedDicts: a dict with the same keys, values encoded by the declared key types (Converter) -/
   | tdG {c kvs out} : cfg.gen = true → EncTD w cfg (w.fields c) kvs out → EncAs w cfg (.td c) (.dict kvs) (.dict out)
-  | tdB {c kvs} : cfg.gen = false → EncAs w cfg (.td c) (.dict kvs) (.dict kvs)
+  | tdB {c kvs out} : cfg.gen = false → EncRtKV w cfg kvs out → EncAs w cfg (.td c) (.dict kvs) (.dict (mkDict out))
 
 /-- by run-time class -/
 inductive EncRt (w : World) (cfg : Cfg) : Obj → Obj → Prop
